@@ -49,6 +49,143 @@ def ppf_replay(fam, what='h(percent_point(y,v), v) = y and 0 <= u <= 1'):
     return rep
 
 
+def ppf_obligations(chk, P, fam, F, resP, Hs, box, thbox, fq=None):
+    """obligations for paths of a call that computes u = percent_point(y, v) with y := U lane, v := V lane"""
+    cls = F['cls']
+    for r in resP:
+        if r.outcome == 'unsupported':
+            chk.undecided.append((P + '.%s.ppf.exec' % fam, 'executor', str(r.value)))
+        pre = [e for e in r.events if e.kind == 'brentq_pre']
+        if r.outcome == 'raise' and r.value.clsname == 'ValueError' and pre and \
+                'different signs' in str(r.value.args[:1]):
+            # brentq's bracket precondition, split into its two halves (each implies the raise path is dead)
+            e = pre[-1]
+            hy = list(e.pc)
+            if fam == 'frank':
+                hy.append(ir.or_(ir.ge(TH, ir.const(Fraction(1, 100))), ir.le(TH, ir.const(Fraction(-1, 100)))))
+            ob = Ob(P + '.%s.ppf.brentq.bracket_lo' % fam, hy, ir.le(e.data['fa'], 0), kind='precall',
+                    backends=('smt', 'icp'), box=dict(box, n=(1, 1)),
+                    function='copulas.bivariate.base.Bivariate.percent_point',
+                    clause='brentq precondition f(EPSILON) <= 0, i.e. partial_derivative(EPSILON, v) <= y',
+                    replay=ppf_replay(fam))
+            ob.max_boxes = 400000 if chk.tier == 'thorough' else 150000
+            ob.extended = True
+            chk.add(ob)
+            # f(1) = h(1, v) - y = 1 - y  (identity, CAS)  and  1 - y >= 0  (trivial)
+            def run_hi(fb=e.data['fb'], pc=hy, fam=fam, thbox=thbox):
+                syms, th, u, v = biv.sym_env(fam)
+                mm = biv.eqs_of(pc)
+                lhs = biv.to_sp(ir.substitute(fb, mm) if mm else fb, syms)
+                d_ = {u: (float(LO), float(HI)), v: (float(LO), float(HI))}
+                if TH not in mm:
+                    d_[th] = thbox
+                accept, seeds = biv.on_path(pc)
+                sub = {v: sp.exp(-sp.Symbol('q', positive=True))} if fam == 'gumbel' else None
+                return biv.with_eqs(cas.identity(lhs, 1 - u, d_, subs=sub, accept=accept, seeds=seeds, samples=16), mm)
+            chk.add(Ob(P + '.%s.ppf.brentq.bracket_hi' % fam, hy, ir.eq(e.data['fb'], ir.sub(1, Y)), kind='precall',
+                       backends=('smt', 'cas'), cas=run_hi,
+                       function='copulas.bivariate.base.Bivariate.percent_point',
+                       clause='brentq precondition f(1) >= 0: partial_derivative(1, v) - y = 1 - y >= 0',
+                       replay=ppf_replay(fam)))
+            chk.add(Ob(P + '.%s.ppf.brentq.bracket_hi.sign' % fam, hy, ir.ge(ir.sub(1, Y), 0), kind='precall',
+                       function='copulas.bivariate.base.Bivariate.percent_point', clause='1 - y >= 0'))
+        elif r.outcome == 'raise':
+            hy = list(r.pc)
+            if fam == 'frank':
+                # removable singularity of Frank's closed forms at theta = 0: interval arithmetic cannot resolve
+                # 0/0, so the sliver 0 < |theta| < 0.01 is excluded here and reported as not covered
+                hy.append(ir.or_(ir.ge(TH, ir.const(Fraction(1, 100))), ir.le(TH, ir.const(Fraction(-1, 100)))))
+            ob = Ob(P + '.%s.ppf.no_exception.%s' % (fam, r.value.clsname), hy, ir.FALSE, kind='precall',
+                    backends=('smt', 'icp'), box=dict(box, n=(1, 1)), function=cls + '.percent_point',
+                    clause='returns u for every y, v in (0,1) [%s: %s]' % (r.value.clsname,
+                                                                          str(r.value.args[:1])[:80]),
+                    replay=ppf_replay(fam))
+            ob.max_boxes = 400000 if chk.tier == 'thorough' else 120000
+            ob.extended = True
+            chk.add(ob)
+        for o in r.obligations:
+            chk.add(Ob(P + '.%s.ppf.%s' % (fam, o.name), o.hyps, o.goal, kind='safety', backends=('smt', 'icp'),
+                       box=dict(box, n=(1, 1)), function=cls + '.percent_point', clause='formula defined',
+                       where=o.where, replay=ppf_replay(fam)))
+    Ps = returned(resP)
+    if not Ps or not Hs:
+        if not any(r.outcome == 'unsupported' for r in resP):
+            chk.engine_error(P + '.%s: no returning path' % fam)
+        return
+    for j, rp in enumerate(Ps):
+        r_t = biv.lane_term(rp.value)
+        # frame: y and V must not be written
+        for e in rp.events:
+            if e.kind == 'mutate':
+                chk.add(Ob(P + '.%s.ppf.frame.%s.%d' % (fam, e.data, j), e.pc, ir.FALSE, kind='frame',
+                           function=cls + '.percent_point', clause='inputs not modified (shared with C20)'))
+        # range
+        chk.add(Ob(P + '.%s.ppf.range.%d' % (fam, j), rp.pc, ir.and_(ir.ge(r_t, 0), ir.le(r_t, 1)),
+                   backends=('smt', 'icp'), box=dict(box, n=(1, 1)), function=cls + '.percent_point',
+                   clause='percent_point(y, v) in [0, 1]', replay=ppf_replay(fam)))
+        # inverse: h(r, v) == y   for every jointly feasible h path
+        for b, rh in enumerate(Hs):
+            pch, m = rename_reductions(rh.pc, 'h')
+            pch = [p for p in pch if U not in ir.free_vars(p)]      # conditions on u are re-stated for u := r
+            if not joint_feasible(rp.pc, pch):
+                continue
+            h_t = ir.substitute(ir.substitute(biv.lane_term(rh.value), m), {U: r_t})
+            brentq = [e for e in rp.events if e.kind == 'brentq']
+            if brentq:
+                # modular step: brentq's ENSURES is in the path condition (f(root) == 0 for the closure that was
+                # really passed); the closure itself must be  u |-> h(u, v) - y  (checked at an arbitrary probe)
+                for e in brentq:
+                    d = e.data
+                    hx = ir.substitute(ir.substitute(biv.lane_term(rh.value), m), {U: d['probe']})
+                    chk.add(Ob(P + '.%s.ppf.brentq.callback_is_h_minus_y.%d_%d' % (fam, j, b), rp.pc + pch,
+                               ir.eq(d['f_probe'], ir.sub(hx, Y)), backends=('smt',),
+                               function='copulas.bivariate.base.Bivariate.percent_point',
+                               clause='the root search is run on u -> partial_derivative(u, v[i]) - y[i] '
+                                      '(element-wise: only lane i enters)', replay=ppf_replay(fam)))
+                    chk.add(Ob(P + '.%s.ppf.brentq.bracket_in_unit.%d_%d' % (fam, j, b), rp.pc,
+                               ir.and_(ir.ge(d['a'], 0), ir.le(d['b'], 1), ir.lt(d['a'], d['b'])),
+                               function='copulas.bivariate.base.Bivariate.percent_point',
+                               clause='search bracket inside [0,1]'))
+                chk.add(Ob(P + '.%s.ppf.inverse.%d_%d' % (fam, j, b), rp.pc + pch, ir.eq(h_t, Y), backends=('smt',),
+                           function=cls + '.percent_point', clause='partial_derivative(percent_point(y,v), v) = y',
+                           replay=ppf_replay(fam)))
+            else:
+                subs = biv.eqs_of(rp.pc + pch)
+
+                def run(h_t=h_t, subs=subs, pc=rp.pc + pch, fam=fam, F=F, thbox=thbox):
+                    syms, th, u, v = biv.sym_env(fam)
+                    mm = dict(subs)
+                    lhs = biv.to_sp(ir.substitute(h_t, mm) if mm else h_t, syms)
+                    d_ = {u: (float(LO), float(HI)), v: (float(LO), float(HI))}
+                    if TH not in mm:
+                        d_[th] = thbox
+                    accept, seeds = biv.on_path(pc)
+                    return biv.with_eqs(cas.identity(lhs, u, d_, accept=accept, seeds=seeds, samples=24), mm)
+                chk.add(Ob(P + '.%s.ppf.inverse.%d_%d' % (fam, j, b), rp.pc + pch, ir.eq(h_t, Y),
+                           backends=('smt', 'cas'), cas=run, function=cls + '.percent_point',
+                           clause='partial_derivative(percent_point(y,v), v) = y', replay=ppf_replay(fam)))
+                # closed form: non-decreasing in y
+                dr = _diff_ir(r_t, Y)
+                ob = Ob(P + '.%s.ppf.monotone_in_y.%d' % (fam, j), rp.pc, ir.ge(dr, 0), backends=('smt', 'icp'),
+                        box=dict(box, n=(1, 1)), function=cls + '.percent_point',
+                        clause='percent_point non-decreasing in y (d/dy >= 0)')
+                ob.max_boxes = 100000
+                chk.add(ob)
+        if j == 0:
+            chk.add(Ob(P + '.%s.canary.ppf_is_v_plus_2' % fam, rp.pc, ir.eq(r_t, ir.add(V, 2)), canary=True, backends=('smt',)))
+    # rows independent: result for lane i must not depend on the adversarial reductions
+    for (a, r1), (b, r2) in itertools.combinations(enumerate(Ps), 2):
+        pc2, m = rename_reductions(r2.pc, 'o')
+        if not joint_feasible(r1.pc, pc2):
+            continue
+        t2 = ir.substitute(biv.lane_term(r2.value), m)
+        if any(e.kind == 'brentq' for e in r1.events + r2.events):
+            continue      # two different fresh roots: uniqueness of the root is not claimed
+        chk.add(Ob(P + '.%s.ppf.rows_independent.%d_%d' % (fam, a, b), r1.pc + pc2,
+                   ir.eq(biv.lane_term(r1.value), t2), function=cls + '.percent_point',
+                   clause='i-th output depends only on (y[i], v[i])'))
+
+
 def build(chk):
     I0 = engine.new_interp()
     src = I0.source
@@ -67,138 +204,7 @@ def build(chk):
         _, resH, _ = biv.run_method(fam, 'partial_derivative', open_at_one=True, safety=False, havoc=False)
         Hs = returned(resH)
         _, resP, ctxP = biv.run_method(fam, 'percent_point', args='yV', extra_req=[dom])
-        for r in resP:
-            if r.outcome == 'unsupported':
-                chk.undecided.append(('C08.%s.ppf.exec' % fam, 'executor', str(r.value)))
-            pre = [e for e in r.events if e.kind == 'brentq_pre']
-            if r.outcome == 'raise' and r.value.clsname == 'ValueError' and pre and \
-                    'different signs' in str(r.value.args[:1]):
-                # brentq's bracket precondition, split into its two halves (each implies the raise path is dead)
-                e = pre[-1]
-                hy = list(e.pc)
-                if fam == 'frank':
-                    hy.append(ir.or_(ir.ge(TH, ir.const(Fraction(1, 100))), ir.le(TH, ir.const(Fraction(-1, 100)))))
-                ob = Ob('C08.%s.ppf.brentq.bracket_lo' % fam, hy, ir.le(e.data['fa'], 0), kind='precall',
-                        backends=('smt', 'icp'), box=dict(box, n=(1, 1)),
-                        function='copulas.bivariate.base.Bivariate.percent_point',
-                        clause='brentq precondition f(EPSILON) <= 0, i.e. partial_derivative(EPSILON, v) <= y',
-                        replay=ppf_replay(fam))
-                ob.max_boxes = 400000 if chk.tier == 'thorough' else 150000
-                ob.extended = True
-                chk.add(ob)
-                # f(1) = h(1, v) - y = 1 - y  (identity, CAS)  and  1 - y >= 0  (trivial)
-                def run_hi(fb=e.data['fb'], pc=hy, fam=fam, thbox=thbox):
-                    syms, th, u, v = biv.sym_env(fam)
-                    mm = biv.eqs_of(pc)
-                    lhs = biv.to_sp(ir.substitute(fb, mm) if mm else fb, syms)
-                    d_ = {u: (float(LO), float(HI)), v: (float(LO), float(HI))}
-                    if TH not in mm:
-                        d_[th] = thbox
-                    accept, seeds = biv.on_path(pc)
-                    sub = {v: sp.exp(-sp.Symbol('q', positive=True))} if fam == 'gumbel' else None
-                    return biv.with_eqs(cas.identity(lhs, 1 - u, d_, subs=sub, accept=accept, seeds=seeds, samples=16), mm)
-                chk.add(Ob('C08.%s.ppf.brentq.bracket_hi' % fam, hy, ir.eq(e.data['fb'], ir.sub(1, Y)), kind='precall',
-                           backends=('smt', 'cas'), cas=run_hi,
-                           function='copulas.bivariate.base.Bivariate.percent_point',
-                           clause='brentq precondition f(1) >= 0: partial_derivative(1, v) - y = 1 - y >= 0',
-                           replay=ppf_replay(fam)))
-                chk.add(Ob('C08.%s.ppf.brentq.bracket_hi.sign' % fam, hy, ir.ge(ir.sub(1, Y), 0), kind='precall',
-                           function='copulas.bivariate.base.Bivariate.percent_point', clause='1 - y >= 0'))
-            elif r.outcome == 'raise':
-                hy = list(r.pc)
-                if fam == 'frank':
-                    # removable singularity of Frank's closed forms at theta = 0: interval arithmetic cannot resolve
-                    # 0/0, so the sliver 0 < |theta| < 0.01 is excluded here and reported as not covered
-                    hy.append(ir.or_(ir.ge(TH, ir.const(Fraction(1, 100))), ir.le(TH, ir.const(Fraction(-1, 100)))))
-                ob = Ob('C08.%s.ppf.no_exception.%s' % (fam, r.value.clsname), hy, ir.FALSE, kind='precall',
-                        backends=('smt', 'icp'), box=dict(box, n=(1, 1)), function=cls + '.percent_point',
-                        clause='returns u for every y, v in (0,1) [%s: %s]' % (r.value.clsname,
-                                                                              str(r.value.args[:1])[:80]),
-                        replay=ppf_replay(fam))
-                ob.max_boxes = 400000 if chk.tier == 'thorough' else 120000
-                ob.extended = True
-                chk.add(ob)
-            for o in r.obligations:
-                chk.add(Ob('C08.%s.ppf.%s' % (fam, o.name), o.hyps, o.goal, kind='safety', backends=('smt', 'icp'),
-                           box=dict(box, n=(1, 1)), function=cls + '.percent_point', clause='formula defined',
-                           where=o.where, replay=ppf_replay(fam)))
-        Ps = returned(resP)
-        if not Ps or not Hs:
-            if not any(r.outcome == 'unsupported' for r in resP + resH):
-                chk.engine_error('C08.%s: no returning path' % fam)
-            continue
-        for j, rp in enumerate(Ps):
-            r_t = biv.lane_term(rp.value)
-            # frame: y and V must not be written
-            for e in rp.events:
-                if e.kind == 'mutate':
-                    chk.add(Ob('C08.%s.ppf.frame.%s.%d' % (fam, e.data, j), e.pc, ir.FALSE, kind='frame',
-                               function=cls + '.percent_point', clause='inputs not modified (shared with C20)'))
-            # range
-            chk.add(Ob('C08.%s.ppf.range.%d' % (fam, j), rp.pc, ir.and_(ir.ge(r_t, 0), ir.le(r_t, 1)),
-                       backends=('smt', 'icp'), box=dict(box, n=(1, 1)), function=cls + '.percent_point',
-                       clause='percent_point(y, v) in [0, 1]', replay=ppf_replay(fam)))
-            # inverse: h(r, v) == y   for every jointly feasible h path
-            for b, rh in enumerate(Hs):
-                pch, m = rename_reductions(rh.pc, 'h')
-                pch = [p for p in pch if U not in ir.free_vars(p)]      # conditions on u are re-stated for u := r
-                if not joint_feasible(rp.pc, pch):
-                    continue
-                h_t = ir.substitute(ir.substitute(biv.lane_term(rh.value), m), {U: r_t})
-                brentq = [e for e in rp.events if e.kind == 'brentq']
-                if brentq:
-                    # modular step: brentq's ENSURES is in the path condition (f(root) == 0 for the closure that was
-                    # really passed); the closure itself must be  u |-> h(u, v) - y  (checked at an arbitrary probe)
-                    for e in brentq:
-                        d = e.data
-                        hx = ir.substitute(ir.substitute(biv.lane_term(rh.value), m), {U: d['probe']})
-                        chk.add(Ob('C08.%s.ppf.brentq.callback_is_h_minus_y.%d_%d' % (fam, j, b), rp.pc + pch,
-                                   ir.eq(d['f_probe'], ir.sub(hx, Y)), backends=('smt',),
-                                   function='copulas.bivariate.base.Bivariate.percent_point',
-                                   clause='the root search is run on u -> partial_derivative(u, v[i]) - y[i] '
-                                          '(element-wise: only lane i enters)', replay=ppf_replay(fam)))
-                        chk.add(Ob('C08.%s.ppf.brentq.bracket_in_unit.%d_%d' % (fam, j, b), rp.pc,
-                                   ir.and_(ir.ge(d['a'], 0), ir.le(d['b'], 1), ir.lt(d['a'], d['b'])),
-                                   function='copulas.bivariate.base.Bivariate.percent_point',
-                                   clause='search bracket inside [0,1]'))
-                    chk.add(Ob('C08.%s.ppf.inverse.%d_%d' % (fam, j, b), rp.pc + pch, ir.eq(h_t, Y), backends=('smt',),
-                               function=cls + '.percent_point', clause='partial_derivative(percent_point(y,v), v) = y',
-                               replay=ppf_replay(fam)))
-                else:
-                    subs = biv.eqs_of(rp.pc + pch)
-
-                    def run(h_t=h_t, subs=subs, pc=rp.pc + pch, fam=fam, F=F, thbox=thbox):
-                        syms, th, u, v = biv.sym_env(fam)
-                        mm = dict(subs)
-                        lhs = biv.to_sp(ir.substitute(h_t, mm) if mm else h_t, syms)
-                        d_ = {u: (float(LO), float(HI)), v: (float(LO), float(HI))}
-                        if TH not in mm:
-                            d_[th] = thbox
-                        accept, seeds = biv.on_path(pc)
-                        return biv.with_eqs(cas.identity(lhs, u, d_, accept=accept, seeds=seeds, samples=24), mm)
-                    chk.add(Ob('C08.%s.ppf.inverse.%d_%d' % (fam, j, b), rp.pc + pch, ir.eq(h_t, Y),
-                               backends=('smt', 'cas'), cas=run, function=cls + '.percent_point',
-                               clause='partial_derivative(percent_point(y,v), v) = y', replay=ppf_replay(fam)))
-                    # closed form: non-decreasing in y
-                    dr = _diff_ir(r_t, Y)
-                    ob = Ob('C08.%s.ppf.monotone_in_y.%d' % (fam, j), rp.pc, ir.ge(dr, 0), backends=('smt', 'icp'),
-                            box=dict(box, n=(1, 1)), function=cls + '.percent_point',
-                            clause='percent_point non-decreasing in y (d/dy >= 0)')
-                    ob.max_boxes = 100000
-                    chk.add(ob)
-            if j == 0:
-                chk.add(Ob('C08.%s.canary.ppf_is_v_plus_2' % fam, rp.pc, ir.eq(r_t, ir.add(V, 2)), canary=True, backends=('smt',)))
-        # rows independent: result for lane i must not depend on the adversarial reductions
-        for (a, r1), (b, r2) in itertools.combinations(enumerate(Ps), 2):
-            pc2, m = rename_reductions(r2.pc, 'o')
-            if not joint_feasible(r1.pc, pc2):
-                continue
-            t2 = ir.substitute(biv.lane_term(r2.value), m)
-            if any(e.kind == 'brentq' for e in r1.events + r2.events):
-                continue      # two different fresh roots: uniqueness of the root is not claimed
-            chk.add(Ob('C08.%s.ppf.rows_independent.%d_%d' % (fam, a, b), r1.pc + pc2,
-                       ir.eq(biv.lane_term(r1.value), t2), function=cls + '.percent_point',
-                       clause='i-th output depends only on (y[i], v[i])'))
+        ppf_obligations(chk, 'C08', fam, F, resP, Hs, box, thbox)
     chk.lemmas += ['L4 (cited)']
     chk.assumptions += [
         'reals, not floats; brentq tolerance (xtol = 2e-12) neglected: its contract returns an exact root',
